@@ -973,18 +973,19 @@ func TestVF_C23(t *testing.T) {
 		if cls == "" {
 			cls = "none-below-quorum"
 		}
-		fp := fmt.Sprintf("rf=%d outcomes=%s status=%d", c.rf, cls, ret.code)
+		// fingerprint = (replication factor, status, rule broken); the outcome multiset is in the text and the witness
+		fp := fmt.Sprintf("rf=%d status=%d", c.rf, ret.code)
 		switch {
 		case ret.code == http.StatusInternalServerError:
-			r.Violation(ci, fp, fmt.Sprintf("500 for a failure made only of conflicts and unavailable replicas (rf=%d quorum=%d, failing series outcomes %s; body %q)", c.rf, q, cls, ret.body), wit)
+			r.Violation(ci, fp+" conflicts-and-unavailable-only", fmt.Sprintf("500 for a failure made only of conflicts and unavailable replicas (rf=%d quorum=%d, failing series outcomes %s; body %q)", c.rf, q, cls, ret.body), wit)
 		case ret.code == http.StatusConflict:
 			if !anyDead {
-				r.Violation(ci, fp, fmt.Sprintf("409 although no series has >= %d conflicts, i.e. a retry could still reach quorum %d (rf=%d, failing series outcomes %s)", f, q, c.rf, cls), wit)
+				r.Violation(ci, fp+" conflicts-below-failure-threshold", fmt.Sprintf("409 although no series has >= %d conflicts, i.e. a retry could still reach quorum %d (rf=%d, failing series outcomes %s)", f, q, c.rf, cls), wit)
 			}
 		case ret.code == http.StatusServiceUnavailable:
 			// always acceptable for a failed request
 		default:
-			r.Violation(ci, fp, fmt.Sprintf("unexpected status %d for a failed replicated write (rf=%d, failing series outcomes %s; body %q)", ret.code, c.rf, cls, ret.body), wit)
+			r.Violation(ci, fp+" unexpected-status", fmt.Sprintf("unexpected status %d for a failed replicated write (rf=%d, failing series outcomes %s; body %q)", ret.code, c.rf, cls, ret.body), wit)
 		}
 	}
 	if !r.Replaying() {
@@ -1005,13 +1006,9 @@ func TestVF_C23(t *testing.T) {
 			}
 			sort.Ints(sts)
 			first := g.status[sts[0]]
-			name := k
-			if strings.HasPrefix(k, "two/") {
-				w := g.wit[sts[0]]
-				name = fmt.Sprintf("rf=%v two-series", w["rf"])
-			}
-			r.Violation(first, fmt.Sprintf("order-dependent %s statuses=%s", name, strings.Trim(strings.ReplaceAll(fmt.Sprint(sts), " ", "/"), "[]")),
-				fmt.Sprintf("the same replica outcomes (%s) give different HTTP statuses %v depending on the order of the responses", k, sts),
+			w := g.wit[sts[0]]
+			r.Violation(first, fmt.Sprintf("order-dependent rf=%v", w["rf"]),
+				fmt.Sprintf("the same replica outcomes (%s, rf=%v) give different HTTP statuses %v depending on the order of the responses", k, w["rf"], sts),
 				map[string]any{"by_status": g.wit})
 		}
 	}
